@@ -5,6 +5,11 @@ import RactorModel.Lemmas.PgConcNotify
 import RactorModel.Lemmas.PgConcLin
 import RactorModel.Lemmas.PgConcLeak
 import RactorModel.Lemmas.PgConcHold
+import RactorModel.Lemmas.PgConcText
+import RactorModel.Lemmas.PgConcRead
+import RactorModel.Lemmas.PgConcLeaveStep
+import RactorModel.Lemmas.PgConcLeaveCongr
+import RactorModel.Model.PgText
 
 /-!
 # C11 — process groups reflect live membership and tell their monitors
@@ -776,6 +781,342 @@ example :
     get g.st.map (1, 0) = get je.1.map (1, 0) ∧ g.st.index = je.1.index ∧
     ([1, 2, 3, 4].all fun a => get g.st.rel a == get je.1.rel a) = true := by decide
 
+/-! ### Wave 2: the notification clause against the property text, readers as threads -/
+
+/-- **The notification clause, one region against the text** (`Lemmas/PgConcText.lean`; `monitoring` = "monitoring
+that group, its scope or all scopes", `changed` = the region changed whether `x` is a member of `k`; neither is
+read off `pg.rs`). For every state and every region of every thread, `new` = the records it appends:
+(a) every EFFECTIVE change `(k, x)` is covered by exactly one record, for that scope and group, of the right
+kind, naming `x`, addressed to exactly the actors monitoring `k`, its scope or all scopes in the state the
+region ran in; (b) every record is addressed to exactly those monitors — nobody else; (c) everything a record
+reports is true of the state after the region, and a record that is NOT effective is either a `Join` of
+actors that were all members already or a `Leave` of actors none of which was a member — the implementation
+reports these to the monitors too (see `ineffective_leave_is_notified`). -/
+theorem conc_notifications_per_text (g : Conc.G) (t : Conc.Tid) :
+    ∃ new, (Conc.step g t).changes = g.changes ++ new ∧
+      (∀ k x, Conc.changed g t k x → ∃ p, new = [p] ∧ (p.s, p.g) = k ∧ x ∈ p.actors ∧
+        (p.isJoin = true ↔ x ∈ membersOf (Conc.step g t).st k) ∧ ∀ m, m ∈ p.to ↔ Conc.monitoring g.st m k) ∧
+      (∀ p ∈ new, ∀ m, m ∈ p.to ↔ Conc.monitoring g.st m (p.s, p.g)) ∧
+      (∀ p ∈ new, Conc.PayloadOk (Conc.step g t).st p ∧ (Conc.effectiveRec g t p ∨ Conc.ineffectiveRec g p)) :=
+  Conc.text_step g t
+
+/-- **Delivered to every monitor of the instant of the change and to no one else, end to end.** For every
+thread set and every schedule, at rest: (1) every notification that was sent is the notification of a recorded
+change, received by an actor that was monitoring that group, its scope or all scopes at the instant `i` of the
+change's own region; (2) conversely every actor that was monitoring at that instant has been sent it.
+(Multiplicities: `conc_notifications_exactly_once`.) -/
+theorem conc_delivered_to_monitors_of_the_instant (ops : List Op) (calls : List Conc.Pc) (sched : List Conc.Tid)
+    (hfresh : ∀ pc ∈ calls, Conc.pcOwed pc = []) :
+    let g := Conc.run (g0 ops calls) sched
+    Conc.atRest g →
+    (∀ e ∈ g.sent, ∃ p ∈ g.changes, e = ⟨e.monitor, p.isJoin, p.s, p.g, p.actors⟩ ∧
+      ∃ i, i < sched.length ∧ Conc.monitoring (Conc.stAt (g0 ops calls) sched i) e.monitor (p.s, p.g)) ∧
+    (∀ p ∈ g.changes, ∃ i, i < sched.length ∧
+      ∀ m, Conc.monitoring (Conc.stAt (g0 ops calls) sched i) m (p.s, p.g) → ⟨m, p.isJoin, p.s, p.g, p.actors⟩ ∈ g.sent) := by
+  intro g hr
+  have hperm := (conc_notifications_exactly_once ops calls sched hfresh).2.2 hr
+  refine ⟨Conc.sent_only_to_monitors (g0 ops calls) sched rfl hperm, ?_⟩
+  intro p hp
+  rcases Conc.records_run (g0 ops calls) sched p hp with h | ⟨i, hi, h⟩
+  · cases h
+  · refine ⟨i, hi, fun m hm => ?_⟩
+    apply hperm.mem_iff.mpr
+    rw [List.mem_flatMap]
+    exact ⟨p, hp, List.mem_map.mpr ⟨m, (h m).mpr hm, rfl⟩⟩
+
+/-- **Decided against the text: an INEFFECTIVE leave is notified.** `leave_scoped` of actors none of which is a
+member, on a group whose entry exists (it has other members or a group monitor), makes a `Leave` record with the
+caller's list verbatim for every monitor of the group. The text's "every effective join or leave is delivered"
+does not ask for it; read as "monitors are told of effective changes only" it is a deviation (what is reported is
+still true: none of the named actors is a member afterwards, `conc_payload_sound`). -/
+theorem ineffective_leave_is_notified (st : State) (s g : Nat) (as : List Nat)
+    (he : (get st.map (s, g)).isSome) :
+    (leaveEntry st s g as).2 = some ⟨false, s, g, as, recipients st (s, g)⟩ := by
+  unfold leaveEntry
+  cases h : get st.map (s, g) with
+  | none => rw [h] at he; cases he
+  | some gs => rfl
+
+/-- witness: group (1,5) has member 1 and group monitor 9; thread 0 calls `leave_scoped(1, 5, [2])` — 2 is not a
+member: membership is unchanged and monitor 9 is sent `Leave(1, 5, [2])` -/
+example :
+    let g := Conc.run (g0 [.join 1 5 [1], .monitor 5 9] [.leave 1 5 [2]]) [.call 0, .call 0]
+    membersOf g.st (1, 5) = [1] ∧ membersOf (g0 [.join 1 5 [1], .monitor 5 9] [.leave 1 5 [2]]).st (1, 5) = [1] ∧
+    g.sent = [⟨9, false, 1, 5, [2]⟩] ∧ g.thr = [.done] := by decide
+
+/-- **Readers are threads: every region of a query reads the membership of ITS instant** (`Model/PgConcRead.lean`:
+the six queries run next to any `Pg.Conc` writers, lock region by lock region; `map.iter()` shard by shard — ANY
+shard function `sh`, any shard count `nSh` — with writers in between). For every thread set, every set of
+readers and every schedule, with `M n` = the membership at the instant after `n` writer regions:
+(0) `M n` is the abstract relation evolved by the linearised operations of the first `n` writer regions, and the
+writers are not disturbed by the readers;
+for every reader that has returned (`first` / `last` = the instants of its first and last region, `vis` = the
+instants of its own regions, all in `[first, last]`):
+(1) `get_members`, `get_local_members`, `which_scoped_groups` have ONE region (`first = last`): the answer is the
+projection of `M last` — linearizable;
+(2) `which_scopes_and_groups` / `which_groups` / `which_scopes`: a key (group, scope) is listed iff the group had
+members at the instant ITS shard was read — so a listed group had members at some instant of the call, and a group
+that has members at EVERY instant of the call is listed (every shard is read completely): linearizable per key;
+the answer as a whole need not be the projection of any single instant (the `example` below: DashMap iteration
+is not a snapshot). -/
+theorem conc_readers_linearizable (ops : List Op) (calls : List Conc.Pc) (qs : List Conc.Query)
+    (sh : Key → Nat) (nSh : Nat) (hsh : 0 < nSh) (rsched : List Conc.RTid) :
+    let rg := Conc.rrun sh nSh (Conc.rstart (g0 ops calls) qs) rsched
+    let M := fun (n : Nat) (k : Key) (x : Nat) => x ∈ membersOf (Conc.stAtH (g0 ops calls) rg.hist n) k
+    (rg.hist = Conc.writersOf rsched ∧ rg.g = Conc.run (g0 ops calls) rg.hist ∧
+      ∀ n k x, M n k x ↔
+        Conc.absRun (fun k x => x ∈ membersOf (run init ops) k) (g0 ops calls) (rg.hist.take n) k x) ∧
+    ∀ q ans acc vis first last, Conc.RPc.ret q ans acc vis first last ∈ rg.rd →
+      (first ≤ last ∧ last ≤ rg.hist.length ∧ ∀ p ∈ vis, first ≤ p.2 ∧ p.2 ≤ last) ∧
+      (∀ s g, q = .getMembers s g → first = last ∧ ∀ a, a ∈ ans ↔ M last (s, g) a) ∧
+      (∀ s g, q = .getLocalMembers s g → first = last ∧
+        ∀ a, a ∈ ans ↔ M last (s, g) a ∧ a ∉ (Conc.stAtH (g0 ops calls) rg.hist last).remote) ∧
+      (∀ s, q = .whichScopedGroups s → first = last ∧ ∀ g, g ∈ ans ↔ ∃ a, M last (s, g) a) ∧
+      (Conc.isIter q = true →
+        (∀ k, k ∈ acc ↔ ∃ n, (k, n) ∈ vis ∧ ∃ a, M n k a) ∧
+        (∀ k, (∀ n, first ≤ n → n ≤ last → ∃ a, M n k a) → k ∈ acc)) ∧
+      (q = .whichScopesAndGroups → ans = []) ∧
+      (q = .whichGroups → ∀ g, g ∈ ans ↔ ∃ s, (s, g) ∈ acc) ∧
+      (q = .whichScopes → ∀ s, s ∈ ans ↔ ∃ g, (s, g) ∈ acc) := by
+  intro rg M
+  have hinv : Conc.RInv sh nSh (g0 ops calls) rg :=
+    Conc.rinv_run (Conc.rinv_start sh nSh (g0 ops calls) qs) rsched
+  have hh : rg.hist = Conc.writersOf rsched := by
+    have := Conc.hist_run sh nSh (Conc.rstart (g0 ops calls) qs) rsched
+    rw [show (Conc.rstart (g0 ops calls) qs).hist = [] from rfl, List.nil_append] at this
+    exact this
+  refine ⟨⟨hh, hinv.1, fun n k x => Conc.lin_run (g0 ops calls) (rg.hist.take n) k x⟩, ?_⟩
+  intro q ans acc vis first last hmem
+  have hok := hinv.2 _ hmem
+  have hproj : ∀ n s g, g ∈ whichScopedGroups (Conc.stAtH (g0 ops calls) rg.hist n) s ↔ ∃ a, M n (s, g) a :=
+    fun n s g => (conc_queries_are_projections ops calls (rg.hist.take n)).2.2.2.2.2 s g
+  have hvis : first ≤ last ∧ last ≤ rg.hist.length ∧ ∀ p ∈ vis, first ≤ p.2 ∧ p.2 ≤ last := by
+    by_cases hq : Conc.isIter q = true
+    · exact (Conc.ret_iter_spec hok hq).1
+    · obtain ⟨hfl, hn, hv, _⟩ := Conc.ret_single_spec hok (by simpa using hq)
+      refine ⟨by omega, hn, fun p hp => ?_⟩
+      rw [hv] at hp
+      simp only [List.mem_singleton] at hp
+      rw [hp]; exact ⟨by simp only []; omega, Nat.le_refl _⟩
+  refine ⟨hvis, ?_, ?_, ?_, ?_, ?_, ?_, ?_⟩
+  · rintro s g rfl
+    obtain ⟨hfl, _, _, ha⟩ := Conc.ret_single_spec hok rfl
+    exact ⟨hfl, fun a => by rw [ha]; exact Iff.rfl⟩
+  · rintro s g rfl
+    obtain ⟨hfl, _, _, ha⟩ := Conc.ret_single_spec hok rfl
+    exact ⟨hfl, fun a => by rw [ha]; exact getLocalMembers_spec _ s g a⟩
+  · rintro s rfl
+    obtain ⟨hfl, _, _, ha⟩ := Conc.ret_single_spec hok rfl
+    exact ⟨hfl, fun g => by rw [ha]; exact hproj last s g⟩
+  · intro hq
+    obtain ⟨_, hacc, hcomp, _⟩ := Conc.ret_iter_spec hok hq
+    exact ⟨hacc, hcomp hsh⟩
+  · rintro rfl
+    exact (Conc.ret_iter_spec hok rfl).2.2.2
+  · rintro rfl
+    obtain ⟨_, _, _, ha⟩ := Conc.ret_iter_spec hok rfl
+    intro g
+    rw [ha]
+    simp only [Conc.iterProj, List.mem_map]
+    constructor
+    · rintro ⟨⟨s, g'⟩, hk, rfl⟩; exact ⟨s, hk⟩
+    · rintro ⟨s, hk⟩; exact ⟨(s, g), hk, rfl⟩
+  · rintro rfl
+    obtain ⟨_, _, _, ha⟩ := Conc.ret_iter_spec hok rfl
+    intro s
+    rw [ha]
+    simp only [Conc.iterProj, List.mem_map]
+    constructor
+    · rintro ⟨⟨s', g⟩, hk, rfl⟩; exact ⟨g, hk⟩
+    · rintro ⟨g, hk⟩; exact ⟨(s, g), hk, rfl⟩
+
+/-- `map.iter()` is not a snapshot (non-vacuity of the reader model, and why (2) above is per key): two shards
+(shard of a key = its group number mod 2); group (1,6) has member 2; a `which_scopes_and_groups` reads shard 0 and
+finds (1,6); then a `leave_scoped(1,6,[2])` empties it and a `join_scoped(1,5,[1])` runs to its commit; the reader
+reads shard 1, finds (1,5) and returns `[(1,6), (1,5)]` — although at no instant of the run both groups had
+members; a `get_members(1,5)` started while the join holds the entry is blocked and then sees `[1]`. -/
+example :
+    let g := g0 [.join 1 6 [2]] [.leave 1 6 [2], .join 1 5 [1]]
+    let rs : List Conc.RTid := [.r 0, .r 0, .w (.call 0), .w (.call 1), .w (.call 1), .w (.call 1),
+      .r 1, .w (.call 1), .r 0, .r 0, .r 1]
+    let rg := Conc.rrun (fun k => k.2) 2 (Conc.rstart g [.whichScopesAndGroups, .getMembers 1 5]) rs
+    rg.rd = [.ret .whichScopesAndGroups [] [(1, 6), (1, 5)] [((1, 6), 0), ((1, 5), 5)] 0 5,
+             .ret (.getMembers 1 5) [1] [] [((1, 5), 5)] 5 5] ∧
+    ((List.range 6).all fun n =>
+      (membersOf (Conc.stAtH g rg.hist n) (1, 5)).isEmpty || (membersOf (Conc.stAtH g rg.hist n) (1, 6)).isEmpty) = true := by
+  decide
+
+/-- **`leave_scoped`'s entry region, one relations lock at a time** (`Lemmas/PgConcLeaveStep.lean`). `Pg.Conc` takes
+the region as one step; `pg.rs` takes — holding the group entry `k` — the relations lock of one actor of the call
+after the other (`leaveRelOne`: `memberships.remove(&key)`), then updates the forward entry (`leaveFwdSt`).
+(1) the region IS those iterations followed by the forward part; (2) an iteration touches only `rel[x].mem`;
+(3) what any other region reads to decide something is unchanged by an iteration (only `x`'s own membership set,
+read by `take` of `x`'s exit, has lost `k`); (4) an iteration commutes, as far as any lookup can tell (`SEq`), with
+every region another thread can run while `k` is held: every region of every exit (`x`'s own included; `finish`
+of another actor), `joinLock` / `joinOne` (another entry or another actor) / `joinCommit` / clean-up of joins (not
+naming a stopping `x`), the entry region of any `leave_scoped`, every `monitor*` / `demonitor*` region (re-checks
+naming another actor or a live one). The two residual cases are characterised exactly:
+`Conc.leaveKey_nonmember` (the extra pending key of `take` is a no-op without a record) and
+`Conc.removeEmptyRel_leaveRelOne` (`remove_empty_actor_relations(x)` of a stopping `x`: the two orders differ by
+one EMPTY reverse-index entry of `x`, and only when `k` was the last thing in it). -/
+theorem conc_leave_iterations_commute (st : State) (k : Key) (x : Nat) :
+    (∀ s g as, (leaveEntry st s g as).1 =
+      if (get st.map (s, g)).isSome then
+        Conc.leaveFwdSt (as.foldl (fun st x => Conc.leaveRelOne st (s, g) x) st) (s, g) as else st) ∧
+    ((Conc.leaveRelOne st k x).map = st.map ∧ (Conc.leaveRelOne st k x).index = st.index ∧
+      (Conc.leaveRelOne st k x).world = st.world ∧ (Conc.leaveRelOne st k x).dead = st.dead ∧
+      (∀ y, y ≠ x → get (Conc.leaveRelOne st k x).rel y = get st.rel y)) ∧
+    ((∀ a, alive (Conc.leaveRelOne st k x) a = alive st a) ∧
+      (∀ k', recipients (Conc.leaveRelOne st k x) k' = recipients st k') ∧
+      (∀ a, (get (Conc.leaveRelOne st k x).rel a).isSome = (get st.rel a).isSome) ∧
+      (∀ a, Conc.relGmonOf (Conc.leaveRelOne st k x) a = Conc.relGmonOf st a) ∧
+      (∀ a, Conc.relWmonOf (Conc.leaveRelOne st k x) a = Conc.relWmonOf st a) ∧
+      (∀ a, a ≠ x → Conc.relMemOf (Conc.leaveRelOne st k x) a = Conc.relMemOf st a)) ∧
+    -- exits
+    (∀ a, Conc.SEq (markDead (Conc.leaveRelOne st k x) a) (Conc.leaveRelOne (markDead st a) k x)) ∧
+    (∀ a, Conc.SEq (demonTake (Conc.leaveRelOne st k x) a) (Conc.leaveRelOne (demonTake st a) k x)) ∧
+    (∀ a k', Conc.SEq (demonKey (Conc.leaveRelOne st k x) a k') (Conc.leaveRelOne (demonKey st a k') k x)) ∧
+    (∀ a s, Conc.SEq (demonWKey (Conc.leaveRelOne st k x) a s) (Conc.leaveRelOne (demonWKey st a s) k x)) ∧
+    (∀ a, Conc.SEq (takeMem (Conc.leaveRelOne st k x) a) (Conc.leaveRelOne (takeMem st a) k x)) ∧
+    (∀ a k', Conc.SEq (leaveKey (Conc.leaveRelOne st k x) a k').1 (Conc.leaveRelOne (leaveKey st a k').1 k x) ∧
+      (leaveKey (Conc.leaveRelOne st k x) a k').2 = (leaveKey st a k').2) ∧
+    (∀ a rm, a ≠ x →
+      Conc.SEq (finishLeave (Conc.leaveRelOne st k x) a rm).1 (Conc.leaveRelOne (finishLeave st a rm).1 k x) ∧
+      (finishLeave (Conc.leaveRelOne st k x) a rm).2 = (finishLeave st a rm).2) ∧
+    -- joins and leaves
+    (∀ k', Conc.SEq (Conc.touchGroup (Conc.leaveRelOne st k x) k') (Conc.leaveRelOne (Conc.touchGroup st k') k x)) ∧
+    (∀ k' y, (y = x → k' ≠ k) →
+      Conc.SEq (Conc.joinOne (Conc.leaveRelOne st k x) k' y) (Conc.leaveRelOne (Conc.joinOne st k' y) k x)) ∧
+    (∀ k' j, Conc.SEq (Conc.joinCommit (Conc.leaveRelOne st k x) k' j) (Conc.leaveRelOne (Conc.joinCommit st k' j) k x)) ∧
+    (∀ s g as, (x ∉ as ∨ alive st x = true) →
+      Conc.SEq (joinCleanup (Conc.leaveRelOne st k x) s g as) (Conc.leaveRelOne (joinCleanup st s g as) k x)) ∧
+    (∀ s g as, Conc.SEq (leaveEntry (Conc.leaveRelOne st k x) s g as).1 (Conc.leaveRelOne (leaveEntry st s g as).1 k x) ∧
+      (leaveEntry (Conc.leaveRelOne st k x) s g as).2 = (leaveEntry st s g as).2) ∧
+    -- monitors and demonitors
+    (∀ g b, Conc.SEq (Conc.monitorEntry (Conc.leaveRelOne st k x) g b) (Conc.leaveRelOne (Conc.monitorEntry st g b) k x)) ∧
+    (∀ s b, Conc.SEq (Conc.monitorScopeEntry (Conc.leaveRelOne st k x) s b)
+      (Conc.leaveRelOne (Conc.monitorScopeEntry st s b) k x)) ∧
+    (∀ g b, (b ≠ x ∨ alive st b = true) →
+      Conc.SEq (monitorRecheck (Conc.leaveRelOne st k x) g b) (Conc.leaveRelOne (monitorRecheck st g b) k x)) ∧
+    (∀ s b, (b ≠ x ∨ alive st b = true) →
+      Conc.SEq (monitorScopeRecheck (Conc.leaveRelOne st k x) s b) (Conc.leaveRelOne (monitorScopeRecheck st s b) k x)) ∧
+    (∀ g b, Conc.SEq (demonitor (Conc.leaveRelOne st k x) g b) (Conc.leaveRelOne (demonitor st g b) k x)) ∧
+    (∀ s b, Conc.SEq (demonitorScope (Conc.leaveRelOne st k x) s b) (Conc.leaveRelOne (demonitorScope st s b) k x)) ∧
+    (∀ g b, Conc.SEq (Conc.demonitorFwdSt (Conc.leaveRelOne st k x) g b) (Conc.leaveRelOne (Conc.demonitorFwdSt st g b) k x)) ∧
+    (∀ s b, Conc.SEq (Conc.demonitorScopeFwdSt (Conc.leaveRelOne st k x) s b)
+      (Conc.leaveRelOne (Conc.demonitorScopeFwdSt st s b) k x)) := by
+  have hf := Conc.leaveRelOne_frame st k x
+  have hr := Conc.leaveRelOne_reads st k x
+  exact ⟨fun s g as => Conc.leave_stepped st s g as,
+    ⟨hf.1, hf.2.1, hf.2.2.1, hf.2.2.2.1, hf.2.2.2.2.2.1⟩,
+    ⟨hr.1, hr.2.2.1, hr.2.2.2.1, hr.2.2.2.2.1, hr.2.2.2.2.2.1, hr.2.2.2.2.2.2.1⟩,
+    Conc.comm_markDead st k x, Conc.comm_demonTake st k x, fun a k' => Conc.comm_demonKey st k k' x a,
+    fun a s => Conc.comm_demonWKey st k x a s, Conc.comm_takeMem st k x, fun a k' => Conc.comm_leaveKey st k k' x a,
+    fun a rm h => Conc.comm_finishLeave st k x a rm h,
+    fun k' => Conc.comm_touchGroup st k k' x, fun k' y h => Conc.comm_joinOne st k k' x y h,
+    fun k' j => Conc.comm_joinCommit st k k' x j, fun s g as h => Conc.comm_joinCleanup st k x s g as h,
+    fun s g as => Conc.comm_leaveEntry st k x s g as,
+    fun g b => Conc.comm_monitorEntry st k x g b, fun s b => Conc.comm_monitorScopeEntry st k x s b,
+    fun g b h => Conc.comm_monitorRecheck st k x g b h, fun s b h => Conc.comm_monitorScopeRecheck st k x s b h,
+    fun g b => Conc.comm_demonitor st k x g b, fun s b => Conc.comm_demonitorScope st k x s b,
+    fun g b => Conc.comm_demonitorFwd st k x g b, fun s b => Conc.comm_demonitorScopeFwd st k x s b⟩
+
+
+/-- **An iteration of `leave_scoped` moves past every region of every thread — in `Pg.Conc.step` itself.** With
+`withLeaveOne g k x` = the global state with the iteration for actor `x` of a `leave_scoped` holding entry `k`
+applied: running ANY region of ANY exit (blocked or not, whatever its phase; for `x`'s own exit every region but
+`take` / `finish`) or ANY region of ANY caller thread (filters, `joinLock`, `joinOne`, `joinCommit`, clean-ups,
+notification regions, entry regions of leaves, every `monitor*` / `demonitor*` region; `callMovable` excludes only
+the `joinOne` of `x` on the held entry itself — impossible while a leave holds it — and a
+`remove_empty_actor_relations` of a stopping `x`) before or after the iteration gives the same global state: same
+phases, program counters, lock table, change records with their recipients, notifications, stale ghosts, and the
+same answer to every lookup in the four indexes (`GEq`). So the per-actor iterations of a stepped `leave_scoped` can
+be moved, one region at a time, to sit right before its forward part — where, run contiguously, they are the merged
+step (`conc_leave_iterations_commute` (1)). -/
+theorem conc_leave_iteration_moves_past_every_region (g : Conc.G) (k : Key) (x : Nat) :
+    (∀ a r, (a = x → r ≠ .take ∧ r ≠ .finish) →
+      Conc.GEq (Conc.step (Conc.withLeaveOne g k x) (.ex a r)) (Conc.withLeaveOne (Conc.step g (.ex a r)) k x)) ∧
+    (∀ i, (∀ pc, g.thr[i]? = some pc → Conc.callMovable g.st k x pc) →
+      Conc.GEq (Conc.step (Conc.withLeaveOne g k x) (.call i)) (Conc.withLeaveOne (Conc.step g (.call i)) k x)) :=
+  ⟨fun a r h => Conc.step_ex_comm g k x a r h, fun i h => Conc.step_call_comm g k x i h⟩
+
+
+/-- **`Pg.Conc.step` depends on the reverse index through lookups only**: global states that agree on every lookup
+(and on everything else) stay so under every region of every thread, hence along every schedule. -/
+theorem conc_step_respects_lookups {g g' : Conc.G} (h : Conc.GEq g g') (ts : List Conc.Tid) :
+    Conc.GEq (Conc.run g ts) (Conc.run g' ts) := Conc.run_congr h ts
+
+/-- **The stepped entry region of `leave_scoped` IS the merged step of `Pg.Conc`** (`Lemmas/PgConcLeaveCongr.lean`).
+Thread `i` is at `leave_scoped(s, g, as)`; `pg.rs` holds the group entry and takes the relations lock of one actor of
+the call after the other; between two of these iterations ANY regions of other threads run (`segs` = the actors of
+the call in order, each followed by the regions that ran after its iteration: regions of exits — of the actors of
+the call too —, of joins holding other entries, of other leaves, monitors, demonitors; a region that needs the held
+entry is blocked, i.e. not there); then the forward part. If the interleaving is `SteppedMovable` (it contains no
+`take` / `finish` of the exit of an actor whose iteration is already done and no `remove_empty_actor_relations` of such
+an actor that is stopping — the residual cases (i), (ii) of `conc_leave_iterations_commute`) and the entry exists, then:
+the state after the forward part answers every lookup like the state after the SAME regions of the other threads
+followed by the ONE-step entry region (`leaveEntry`); the record (payload, recipients) is that step's record; phases,
+program counters, lock table, records and notifications of everybody else are the same. -/
+theorem conc_leave_stepped_is_merged (g : Conc.G) (s g' : Nat) (segs : List (Nat × List Conc.Tid))
+    (h : Conc.SteppedMovable g (s, g') segs)
+    (he : (get (Conc.run g (segs.flatMap (·.2))).st.map (s, g')).isSome) :
+    let as := segs.map (·.1)
+    let fine := Conc.runStepped g (s, g') segs
+    let coarse := Conc.run g (segs.flatMap (·.2))
+    Conc.SEq (Conc.leaveFwdSt fine.st (s, g') as) (leaveEntry coarse.st s g' as).1 ∧
+    (some (⟨false, s, g', as, recipients fine.st (s, g')⟩ : Pending)) = (leaveEntry coarse.st s g' as).2 ∧
+    fine.thr = coarse.thr ∧ fine.exits = coarse.exits ∧ fine.locks = coarse.locks ∧ fine.sent = coarse.sent ∧
+    fine.changes = coarse.changes :=
+  Conc.leave_stepped_is_merged g s g' segs h he
+
+/-- non-vacuity: `leave_scoped(1, 5, [1, 2])` stepped, with `mark` of actor 2's exit after the iteration for actor 1
+and `mark`, `demTake` of actor 1's OWN exit after the iteration for actor 2: movable, and the stepped result has the
+lookups of the merged step run after those three exit regions -/
+example :
+    let g := g0 [.join 1 5 [1, 2, 3], .monitor 5 9] [.leave 1 5 [1, 2]]
+    let segs : List (Nat × List Conc.Tid) := [(1, [.ex 2 .mark]), (2, [.ex 1 .mark, .ex 1 .demTake])]
+    Conc.SteppedMovable g (1, 5) segs ∧
+    (let fine := Conc.leaveFwdSt (Conc.runStepped g (1, 5) segs).st (1, 5) [1, 2]
+     let coarse := (Conc.step (Conc.run g [.ex 2 .mark, .ex 1 .mark, .ex 1 .demTake]) (.call 0)).st
+     membersOf fine (1, 5) = [3] ∧ fine.map = coarse.map ∧ fine.index = coarse.index ∧ fine.dead = coarse.dead ∧
+     ([1, 2, 3, 9].all fun a => get fine.rel a == get coarse.rel a) = true) := by
+  refine ⟨?_, by decide⟩
+  simp [Conc.SteppedMovable, Conc.Movable, Conc.movable1]
+
+/-- non-vacuity of the residual case (ii): actor 1 is stopping, its only reverse-index entry is its membership of
+(1,5): `remove_empty_actor_relations(1)` after the iteration removes the entry, before it leaves it behind empty -/
+example :
+    let st := markDead (run init [.join 1 5 [1]]) 1
+    get (removeEmptyRel (Conc.leaveRelOne st (1, 5) 1).rel 1) 1 = none ∧
+    get (Conc.leaveRelOne { st with rel := removeEmptyRel st.rel 1 } (1, 5) 1).rel 1 = some ⟨[], [], []⟩ := by decide
+
+/-- the run-time text oracle (`Model/PgText.lean`, evaluated by the `lts` driver on the implementation's own
+snapshots) on the witness of the ineffective leave: the clause as written passes (the event goes to a monitor of
+that group and says nothing false, no effective change is missed); the STRICT reading (not wired into the driver)
+flags it; a missed scope monitor is flagged by the clause as written (sabotage 13) -/
+example :
+    let p := run init [.monitor 0 2, .join 1 0 [0]]
+    let q := (step p (.leave 1 0 [1])).1
+    q = p ∧ (step p (.leave 1 0 [1])).2 = [⟨2, false, 1, 0, [1]⟩] ∧
+    textNotifFailing p q [⟨2, false, 1, 0, [1]⟩] = [] ∧
+    textNotifStrictFailing p q [⟨2, false, 1, 0, [1]⟩] =
+      ["text-ineffective-change-notified", "text-payload-names-unchanged-actor"] ∧
+    (let p' := run init [.monitorScope 3 4, .join 3 0 [4]]
+     textNotifFailing p' (step p' (.leave 3 0 [4, 4])).1 [] =
+       ["text-effective-change-not-delivered-once-per-subscription"] ∧
+     textNotifFailing p' (step p' (.leave 3 0 [4, 4])).1 (step p' (.leave 3 0 [4, 4])).2 = []) := by decide
+
+/-- the exit clause of the run-time text oracle (one un-raced `exit a` line of the `lts` engine): the scope monitor 4
+must be sent `Leave(3, 0, [5])` when member 5 exits (flagged if it is not; the model's own events pass); an exiting
+actor that monitors its own group is told nothing (it drops its monitor entries before it is taken out) -/
+example :
+    let p := run init [.monitorScope 3 4, .join 3 0 [5]]
+    textExitFailing p (step p (.exit 5)).1 5 [] = ["text-effective-change-not-delivered-once-per-subscription"] ∧
+    textExitFailing p (step p (.exit 5)).1 5 (step p (.exit 5)).2 = [] ∧
+    (step p (.exit 5)).2 = [⟨4, false, 3, 0, [5]⟩] ∧
+    (let p' := run init [.monitor 0 5, .join 1 0 [5]]
+     (step p' (.exit 5)).2 = [] ∧ textExitFailing p' (step p' (.exit 5)).1 5 [] = []) := by decide
+
 end C11
 
 #print axioms C11.ok_reachable
@@ -818,3 +1159,11 @@ end C11
 #print axioms C11.conc_payload_sound
 #print axioms C11.conc_join_guard_vacuous
 #print axioms C11.conc_stale_origin
+#print axioms C11.conc_notifications_per_text
+#print axioms C11.conc_delivered_to_monitors_of_the_instant
+#print axioms C11.ineffective_leave_is_notified
+#print axioms C11.conc_readers_linearizable
+#print axioms C11.conc_leave_iterations_commute
+#print axioms C11.conc_leave_iteration_moves_past_every_region
+#print axioms C11.conc_step_respects_lookups
+#print axioms C11.conc_leave_stepped_is_merged
